@@ -4,9 +4,12 @@
 # (quick tier) against it, prints their verdict lines, removes the copy.
 n="$1"; patch="$2"; shift 2
 eval "$(/verif/tools/scratch.sh "$n" | head -1)"
+# a private build cache that disappears with the scratch copy (every copy has its own module path,
+# so nothing it compiles is reusable and the shared cache would only grow)
+export GOCACHE="/dev/shm/gocache-$n"; mkdir -p "$GOCACHE"
 cd "$VERIF_REPO" || exit 2
 if ! git apply "$patch" 2>/tmp/trymut-$n.err; then
-  if ! patch -p1 < "$patch" >/tmp/trymut-$n.err 2>&1; then echo "PATCH DOES NOT APPLY: $(cat /tmp/trymut-$n.err | head -3)"; rm -rf /tmp/vs-$n; exit 2; fi
+  if ! patch -p1 < "$patch" >/tmp/trymut-$n.err 2>&1; then echo "PATCH DOES NOT APPLY: $(cat /tmp/trymut-$n.err | head -3)"; rm -rf /tmp/vs-$n /dev/shm/gocache-$n; exit 2; fi
 fi
 cd "$VERIF_ROOT"
 for id in "$@"; do
@@ -21,4 +24,4 @@ try:
 except Exception as e: print('   (replay not json)')
 "; fi
 done
-rm -rf "/tmp/vs-$n"
+rm -rf "/tmp/vs-$n" "/dev/shm/gocache-$n"
